@@ -374,7 +374,7 @@ pub fn run(ctx: Ctx) -> i32 {
     report.run_probes(&replay);
     let tier = ctx.tier;
     let n_entries = zoo.entries.len();
-    let per_entry = tier.pick(6u32, 120u32);
+    let per_entry = tier.pick(24u32, 120u32);
     let bad = run_in_workers(&report, 16, std::time::Duration::from_secs(tier.pick(900, 10800)), &|report: &Report| {
         let cfg = ValueCfg { big_weight: 0, max_big: 300, max_big_elems: 300, conformance: true, out_of_root: false, cap_open_types: true, hard_limit: None, foreign_chars: false };
         if report.ctx.my_shards(1).contains(&0) {
